@@ -334,6 +334,8 @@ class C18(E1):
                 if kind not in done:
                     done.add(kind)
                     self.own(w, kind, s, text)
+                    if kind != "iteration":
+                        w.viol[-1]["cls"] = "*"
             for i in idxs:
                 a = raw[i]
                 self._laws_single(a, ns, once)
@@ -342,6 +344,49 @@ class C18(E1):
                 for b, equal in _perturb(a, L):
                     self._law_pair(a, b, once, expect=equal)
                 w.probe("c18_actions_examined")
+        # directly constructed actions (seeded by the run's own history, so
+        # the choice is a pure function of the run)
+        import random
+        rng = random.Random(int(w.fingerprint()[:16], 16))
+        ST = [L.StorageType.RAM, L.StorageType.DISK, L.StorageType.WORK,
+              L.StorageType.NONE]
+        ints = (0, 1, 2, 3, 7, 64, sys.maxsize - 1, sys.maxsize)
+        pool = []
+        for _ in range(10):
+            k = rng.randrange(6)
+            n0 = rng.choice(ints[:6])
+            n1 = n0 + rng.choice((1, 2, 5, sys.maxsize))
+            if k == 0:
+                pool.append(ns["Forward"](n0, n1, rng.random() < 0.5,
+                                          rng.random() < 0.5,
+                                          rng.choice(ST)))
+            elif k == 1:
+                pool.append(ns["Reverse"](n1, n0, rng.random() < 0.5))
+            elif k == 2:
+                pool.append(ns["Copy"](n0, rng.choice(ST[:2]),
+                                       rng.choice(ST)))
+            elif k == 3:
+                pool.append(ns["Move"](n0, rng.choice(ST[:2]),
+                                       rng.choice(ST)))
+            elif k == 4:
+                pool.append(ns["EndForward"]())
+            else:
+                pool.append(ns["EndReverse"]())
+        done = set()
+        slot0 = (w.all_slots() or [None])[0]
+
+        def once2(kind, text):
+            if kind not in done:
+                done.add(kind)
+                self.own(w, kind, slot0, "directly constructed: " + text)
+                w.viol[-1]["cls"] = "*"
+        for i, a in enumerate(pool):
+            self._laws_single(a, ns, once2)
+            for b in pool[i + 1:]:
+                self._law_pair(a, b, once2)
+            for b, equal in _perturb(a, L):
+                self._law_pair(a, b, once2, expect=equal)
+        w.probe("c18_constructed_actions", len(pool))
 
     def _law_pair(self, a, b, once, expect=None):
         want = _struct_eq(a, b) if expect is None else expect
